@@ -668,7 +668,7 @@ def outbound_contracts():
              "is always queued; it is handed to the connection now iff there is one and nothing older is still unsent"))
     cs.append(Contract(
         OB + "send_if_connected", props=["C10", "C15", "C16"], params={"r": "union[nt[KCM],nt[Ping],nt[Pong],nt[Ack]]"},
-        self_fields=fields(*ALLF), assert_mode="prove", requires=INV,
+        self_fields=fields(*ALLF), assert_mode="prove", requires=INV, inline=True,
         ensures=named(INV) + [SAME_CONN, ("c16.control-record-goes-out-whenever-there-is-a-connection",
                   "bcalls('send_record') == ite(self._connection is not None, 1, 0)"),
                  ("c16.that-record-unchanged", "self._connection is None or bcall_arg('send_record', 0, 0) == r"),
